@@ -1,45 +1,132 @@
 (* C11 — Adaptive thresholds (warm-up, memory-adaptive) stay inside their configured envelope.
-   Property theorems only; every proof is `exact <lemma>` from Proofs/. *)
-From Coq Require Import Floats.
+   Property theorems only; every proof is `exact <lemma>` from Proofs/.
+
+   FR f  is the real value of the double f, fin f its finiteness (Proofs/C11Float.v, through
+   Flocq's formalisation of binary64; these theorems depend on the axioms of Coq's Reals and
+   primitive floats, listed by Print Assumptions below).  `_partial` theorems are about the
+   exact-rational twins and hold without the size guards of the float theorems. *)
+From Coq Require Import Reals Floats.
 From SG Require Import Base.Prelude Base.GoInt Base.GoFloat Model.Adaptive Model.WarmUp
-  Proofs.AdaptiveProofs Proofs.WarmUpProofs.
+  Proofs.AdaptiveProofs Proofs.WarmUpProofs Proofs.C11Float Proofs.AdaptiveFloat Proofs.WarmUpFloat.
 #[local] Open Scope Z_scope.
 
-(* ===================== memory-adaptive rule (float model) ===================== *)
+(* ===================== memory-adaptive rule ===================== *)
 
-(* at or below the low water mark (and when the reading is not available): the low-memory threshold *)
+(* at or below the low water mark (and when the reading is not available): exactly the
+   low-memory threshold — all int64 values *)
 Theorem C11_mem_low : forall m mem, mem <= lowW m -> mem_allowed m mem = f_of_i64 (lowT m).
 Proof. exact mem_low. Qed.
 
 Theorem C11_mem_not_retrieved : forall m, mem_allowed m not_retrieved = f_of_i64 (lowT m).
 Proof. exact mem_not_retrieved. Qed.
 
-(* at or above the high water mark: the high-memory threshold *)
+(* at or above the high water mark: exactly the high-memory threshold *)
 Theorem C11_mem_high : forall m mem, 0 < lowW m -> lowW m < highW m -> highW m <= mem ->
   mem_allowed m mem = f_of_i64 (highT m).
 Proof. exact mem_high. Qed.
 
-(* exact-rational twin: between the marks the threshold lies between the two thresholds ... *)
+(* valid rule with thresholds and marks up to 2^53: every reading (also strictly between the
+   marks, where the value is computed with three roundings) gives a finite double inside
+   [HighMemUsageThreshold, LowMemUsageThreshold] *)
+Theorem C11_mem_between : forall total m mem, mvalid total m = true -> msmall m -> -1 <= mem ->
+  fin (mem_allowed m mem) /\ (IZR (highT m) <= FR (mem_allowed m mem) <= IZR (lowT m))%R.
+Proof.
+  intros total m mem H Hs Hm.
+  destruct (mem_allowed_bounds m mem (mvalid_mok total m H) Hs Hm) as (F & _ & B). exact (conj F B).
+Qed.
+
+(* finite and positive *)
+Theorem C11_mem_finite_nonneg : forall total m mem, mvalid total m = true -> msmall m -> -1 <= mem ->
+  fin (mem_allowed m mem) /\ (0 < FR (mem_allowed m mem))%R.
+Proof.
+  intros total m mem H Hs Hm.
+  destruct (mem_allowed_bounds m mem (mvalid_mok total m H) Hs Hm) as (F & P & B).
+  split; [exact F|]. exact (Rlt_le_trans _ _ _ P (proj1 B)).
+Qed.
+
+(* non-increasing in the memory reading, as doubles *)
+Theorem C11_mem_monotone : forall total m mem1 mem2, mvalid total m = true -> msmall m -> 0 <= mem1 <= mem2 ->
+  (mem_allowed m mem2 <=? mem_allowed m mem1)%float = true.
+Proof. intros total m mem1 mem2 H. exact (mem_allowed_mono_leb m mem1 mem2 (mvalid_mok total m H)). Qed.
+
+(* without the size guard, on the exact-rational twin *)
 Theorem C11_mem_between_partial : forall total m mem, mvalid total m = true -> -1 <= mem ->
   let '(n, d) := mem_twin m mem in 0 < d /\ highT m * d <= n /\ n <= lowT m * d.
 Proof. intros total m mem H. exact (twin_between m mem (mvalid_mok total m H)). Qed.
 
-(* ... and is non-increasing in the reading *)
 Theorem C11_mem_monotone_partial : forall total m mem1 mem2, mvalid total m = true -> 0 <= mem1 <= mem2 ->
   let '(n1, d1) := mem_twin m mem1 in let '(n2, d2) := mem_twin m mem2 in n2 * d1 <= n1 * d2.
 Proof. intros total m mem1 mem2 H. exact (AdaptiveProofs.twin_monotone m mem1 mem2 (mvalid_mok total m H)). Qed.
 
+(* thresholds above 2^53 (finding C11-F5): the double computation leaves the envelope ... *)
+Theorem C11_mem_between_refuted : exists total m mem,
+  mvalid total m = true /\ lowW m < mem < highW m /\ (mem_allowed m mem <? f_of_i64 (highT m))%float = true.
+Proof.
+  exists 1024, big_m, 5. destruct big_m_outside as (H1 & H2 & _).
+  split; [exact H1|]. split; [unfold big_m; cbn [lowW highW]; lia|exact H2].
+Qed.
+
+(* ... and is not monotone across the high mark *)
+Theorem C11_mem_monotone_refuted : exists total m mem1 mem2,
+  mvalid total m = true /\ 0 <= mem1 <= mem2 /\ (mem_allowed m mem1 <? mem_allowed m mem2)%float = true.
+Proof.
+  exists 1024, big_m, 5, 7. destruct big_m_outside as (H1 & _ & H3).
+  split; [exact H1|]. split; [lia|exact H3].
+Qed.
+
 Example C11_mem_nonvacuous :
   let m := {| lowT := 1000; highT := 100; lowW := 1024; highW := 4096 |} in
-  mvalid 8192 m = true /\ mem_allowed m 1024 = 1000%float /\ mem_allowed m 4096 = 100%float /\
+  mvalid 8192 m = true /\ msmall m /\ mem_allowed m 1024 = 1000%float /\ mem_allowed m 4096 = 100%float /\
   mem_allowed m 2560 = 550%float /\ mem_twin m 2560 = (1689600, 3072).
-Proof. vm_compute. repeat split; reflexivity. Qed.
+Proof. cbv zeta. unfold msmall. cbn [lowT highW]. repeat split; try reflexivity; lia. Qed.
 
 (* ===================== warm-up rule ===================== *)
+
+(* wu_ok c: non-degenerate configuration (warningToken < maxToken <= 2^53), finite threshold
+   with 2^-64 <= T <= 2^64, cold factor 2..2^32, slope as the constructor computes it.
+   wu_eps = 14 * 2^-52. *)
+
+(* the allowed value is finite, positive and never above the threshold (relative 14*2^-52: the
+   Nextafter bump and six roundings), whatever the bucket holds *)
+Theorem C11_wu_le_threshold : forall c tokens, wu_ok c -> 0 <= tokens <= w_max c ->
+  fin (allowed_of c tokens) /\ (0 < FR (allowed_of c tokens) <= FR (w_thr c) * (1 + wu_eps))%R.
+Proof. exact allowed_le_thr. Qed.
+
+Theorem C11_wu_finite_nonneg : forall c tokens, wu_ok c -> 0 <= tokens <= w_max c ->
+  fin (allowed_of c tokens) /\ (0 < FR (allowed_of c tokens))%R.
+Proof. intros c tokens H Ht. destruct (allowed_le_thr c tokens H Ht) as [F [P _]]. exact (conj F P). Qed.
 
 (* below the warning line the allowed rate is exactly the threshold *)
 Theorem C11_wu_full_below_warning : forall c tokens, 0 <= tokens < w_warning c -> allowed_of c tokens = w_thr c.
 Proof. exact allowed_full. Qed.
+
+(* cold state (bucket full, which is what an idle period produces): the allowed rate is
+   threshold/coldFactor up to the same relative error.  Partial: that an idle period of
+   maxToken/T seconds fills the bucket is not proved (the float-to-int64 truncation in
+   coolDownTokens); it is exercised by the correspondence and the monitor. *)
+Theorem C11_wu_cold_start_partial : forall c, wu_ok c ->
+  (FR (w_thr c) / IZR (w_cf c) <= FR (allowed_of c (w_max c)) * (1 + wu_eps))%R /\
+  (FR (allowed_of c (w_max c)) <= FR (w_thr c) / IZR (w_cf c) * (1 + wu_eps))%R.
+Proof.
+  intros c H. pose proof H as (_ & _ & _ & H0 & H1 & _).
+  split; [apply allowed_ge_cold; [exact H|lia]|apply allowed_cold; exact H].
+Qed.
+
+(* never colder than threshold/coldFactor while the bucket holds at most maxToken *)
+Theorem C11_wu_ge_cold : forall c tokens, wu_ok c -> 0 <= tokens <= w_max c ->
+  (FR (w_thr c) / IZR (w_cf c) <= FR (allowed_of c tokens) * (1 + wu_eps))%R.
+Proof. exact allowed_ge_cold. Qed.
+
+(* the bucket stays within [0, maxToken] *)
+Theorem C11_wu_stored_bounds : forall c st now q,
+  0 <= w_max c -> 0 <= stored st <= w_max c -> 0 <= consumed q ->
+  in_i64 (cool_down c st (now - now mod 1000) q - consumed q) ->
+  0 <= stored (sync_token c st now q) <= w_max c.
+Proof.
+  intros c st now q Hm Hs Hq Hi. split.
+  - apply sync_stored_nonneg. lia.
+  - apply sync_stored_le_max; try assumption. lia.
+Qed.
 
 (* sustained demand (no refill, at least one token consumed per second) for more than
    stored - warningToken seconds brings the bucket below the warning line: full threshold *)
@@ -52,20 +139,33 @@ Theorem C11_wu_reaches_full : forall c ds st,
     allowed_of c (stored (sync_all c st (firstn k ds))) = w_thr c.
 Proof. intros c ds st. exact (sustained_reaches_full c ds st). Qed.
 
-(* exact-rational twin of the allowed-token curve, T = tn/td, warningToken W < maxToken M *)
-Theorem C11_wu_le_threshold_partial : forall tn td cf W M tokens, twin_ok tn td cf W M ->
+(* threshold >= coldFactor (with the error margin): a single-token request that finds the
+   window empty is admitted, in every state of the bucket — no starvation *)
+Theorem C11_wu_not_starved : forall c st now, wu_ok c ->
+  (IZR (w_cf c) * (1 + wu_eps) <= FR (w_thr c))%R ->
+  0 <= stored (fst (calc c st now)) <= w_max c ->
+  cur_sum (passes (fst (calc c st now))) now = 0 ->
+  snd (snd (wstep c st now 1)) = true.
+Proof. exact single_token_admitted. Qed.
+
+Example C11_wu_nonvacuous :
+  wu_ok (mk_wcfg 12 3 3) /\ (IZR (w_cf (mk_wcfg 12 3 3)) * (1 + wu_eps) <= FR (w_thr (mk_wcfg 12 3 3)))%R.
+Proof. exact wu_ok_example. Qed.
+
+(* exact-rational twin of the curve, T = tn/td, warningToken W < maxToken M: no size guards *)
+Theorem C11_wu_le_threshold_twin_partial : forall tn td cf W M tokens, twin_ok tn td cf W M ->
   let '(n, d) := allowed_twin tn td cf W M tokens in n * td <= tn * d.
 Proof. exact twin_le_threshold. Qed.
 
-Theorem C11_wu_cold_start_partial : forall tn td cf W M, twin_ok tn td cf W M ->
+Theorem C11_wu_cold_start_twin_partial : forall tn td cf W M, twin_ok tn td cf W M ->
   let '(n, d) := allowed_twin tn td cf W M M in n * td * cf = tn * d.
 Proof. exact twin_cold. Qed.
 
-Theorem C11_wu_not_starved_partial : forall tn td cf W M tokens, twin_ok tn td cf W M -> tokens <= M -> cf * td <= tn ->
+Theorem C11_wu_not_starved_twin_partial : forall tn td cf W M tokens, twin_ok tn td cf W M -> tokens <= M -> cf * td <= tn ->
   let '(n, d) := allowed_twin tn td cf W M tokens in d <= n.
 Proof. exact twin_not_starved. Qed.
 
-Theorem C11_wu_finite_nonneg_partial : forall tn td cf W M tokens, twin_ok tn td cf W M ->
+Theorem C11_wu_finite_nonneg_twin_partial : forall tn td cf W M tokens, twin_ok tn td cf W M ->
   let '(n, d) := allowed_twin tn td cf W M tokens in 0 < n /\ 0 < d.
 Proof. exact twin_pos. Qed.
 
@@ -75,23 +175,27 @@ Proof. unfold twin_ok. repeat split; try lia; reflexivity. Qed.
 
 (* ---- refuted clauses (findings; each replayed on the Go code by the harness witnesses) ---- *)
 
+(* C11-F1 (D10): 1 <= threshold < coldFactor, 90 s of one request per second, none admitted *)
 Theorem C11_wu_not_starved_refuted : exists T period cf,
   wvalid T period cf = true /\ (1 <=? T)%float = true /\
   admitted_count (wrun (mk_wcfg T period cf) winit (one_per_sec t_start 90)) = 0.
 Proof. exists 2%float, 10, 3. exact d10_starved. Qed.
 
+(* C11-F2: threshold = coldFactor, the cold rate rounds to 1 - 2^-53 *)
 Theorem C11_wu_not_starved_eq_refuted : exists T period cf,
   wvalid T period cf = true /\
   (allowed_of (mk_wcfg T period cf) (w_max (mk_wcfg T period cf)) <? 1)%float = true /\
   admitted_count (wrun (mk_wcfg T period cf) winit (one_per_sec t_start 90)) = 0.
 Proof. exists 5%float, 121, 5. exact d10_eq_starved. Qed.
 
+(* C11-F3: empty token range, no cold phase *)
 Theorem C11_wu_cold_start_refuted : exists T period cf,
   wvalid T period cf = true /\ w_warning (mk_wcfg T period cf) = w_max (mk_wcfg T period cf) /\
   let a := snd (calc (mk_wcfg T period cf) winit t_start) in
   (T <=? a)%float = true /\ (a <=? T / f_of_u64 cf)%float = false.
 Proof. exists 1%float, 1, 2. exact no_cold_phase. Qed.
 
+(* C11-F4: a NaN threshold is a valid rule *)
 Theorem C11_wu_finite_nonneg_refuted : exists T period cf,
   wvalid T period cf = true /\
   is_nan (snd (calc (mk_wcfg T period cf) winit t_start)) = true /\
@@ -101,14 +205,25 @@ Proof. exists nan, 10, 3. exact nan_threshold. Qed.
 Print Assumptions C11_mem_low.
 Print Assumptions C11_mem_not_retrieved.
 Print Assumptions C11_mem_high.
+Print Assumptions C11_mem_between.
+Print Assumptions C11_mem_finite_nonneg.
+Print Assumptions C11_mem_monotone.
 Print Assumptions C11_mem_between_partial.
 Print Assumptions C11_mem_monotone_partial.
+Print Assumptions C11_mem_between_refuted.
+Print Assumptions C11_mem_monotone_refuted.
+Print Assumptions C11_wu_le_threshold.
+Print Assumptions C11_wu_finite_nonneg.
 Print Assumptions C11_wu_full_below_warning.
-Print Assumptions C11_wu_reaches_full.
-Print Assumptions C11_wu_le_threshold_partial.
 Print Assumptions C11_wu_cold_start_partial.
-Print Assumptions C11_wu_not_starved_partial.
-Print Assumptions C11_wu_finite_nonneg_partial.
+Print Assumptions C11_wu_ge_cold.
+Print Assumptions C11_wu_stored_bounds.
+Print Assumptions C11_wu_reaches_full.
+Print Assumptions C11_wu_not_starved.
+Print Assumptions C11_wu_le_threshold_twin_partial.
+Print Assumptions C11_wu_cold_start_twin_partial.
+Print Assumptions C11_wu_not_starved_twin_partial.
+Print Assumptions C11_wu_finite_nonneg_twin_partial.
 Print Assumptions C11_wu_not_starved_refuted.
 Print Assumptions C11_wu_not_starved_eq_refuted.
 Print Assumptions C11_wu_cold_start_refuted.
